@@ -1,5 +1,6 @@
 import RtenVerif.Driver.Util
 import RtenVerif.Model.QuantGemm
+import RtenVerif.Model.QuantOps
 
 /-!
 `model_C17`: line protocol of `harness/gemm/src/bin/c17.rs`.
@@ -8,7 +9,7 @@ import RtenVerif.Model.QuantGemm
 → the `m×n` i32 output (run-length encoded like the request), `panic`, or `skip`.
 -/
 namespace RtenVerif.Driver.C17
-open RtenVerif.Driver RtenVerif.QuantGemm
+open RtenVerif.Driver RtenVerif.QuantGemm RtenVerif.QuantOps
 
 /-- `v` or `v*count` tokens separated by `,`; `_` is the empty list. -/
 def parseRle (s : String) : Option (List Int) :=
@@ -77,9 +78,106 @@ def handleG (ws : List String) : Option String := do
                        za, zb, c0, a, b }
   return showRle (gemm r)
 
+/-! ### Operator-level lines -/
+
+def parseDt (s : String) : Option Dt :=
+  if s == "u8" then some .u8 else if s == "i8" then some .i8 else none
+
+def parseZp (s : String) : Option ZeroPoint :=
+  if s == "-" then some .none
+  else if s.startsWith "s:" then (s.drop 2).toString.toInt? |>.map .scalar
+  else if s.startsWith "v:" then (parseRle (s.drop 2).toString).map .vec
+  else none
+
+def showShape (dims : List Nat) : String := joinWith "x" (dims.map toString)
+
+def handleMmi (ws : List String) : Option String := do
+  let kvs ← ws.mapM parseKv
+  let da ← parseDt (← field kvs "da")
+  let db ← parseDt (← field kvs "db")
+  let batch ← (← field kvs "batch").toNat?
+  let bb := (← field kvs "bb") == "1"
+  let m ← (← field kvs "m").toNat?
+  let k ← (← field kvs "k").toNat?
+  let n ← (← field kvs "n").toNat?
+  let za ← parseZp (← field kvs "za")
+  let zb ← parseZp (← field kvs "zb")
+  let a ← parseRle (← field kvs "a")
+  let b ← parseRle (← field kvs "b")
+  let nb := if batch == 0 then 1 else batch
+  let out := matMulInteger da db nb m k n bb za zb a b
+  let shape := if batch == 0 then [m, n] else [batch, m, n]
+  return s!"shape={showShape shape} {showRle out}"
+
+def parseNats (s : String) : Option (List Nat) := (s.splitOn ",").mapM String.toNat?
+
+def handleCvi (ws : List String) : Option String := do
+  let kvs ← ws.mapM parseKv
+  let dx ← parseDt (← field kvs "dx")
+  let dw ← parseDt (← field kvs "dw")
+  let nat (k : String) : Option Nat := do (← field kvs k).toNat?
+  let pads ← parseNats (← field kvs "pads")
+  let st ← parseNats (← field kvs "st")
+  let dil ← parseNats (← field kvs "dil")
+  let p : Conv := { n := ← nat "n", c := ← nat "c", h := ← nat "h", w := ← nat "w", o := ← nat "o",
+                    kh := ← nat "kh", kw := ← nat "kw", groups := ← nat "g",
+                    padT := pads.getD 0 0, padL := pads.getD 1 0, padB := pads.getD 2 0,
+                    padR := pads.getD 3 0, sy := st.getD 0 1, sx := st.getD 1 1,
+                    dy := dil.getD 0 1, dx := dil.getD 1 1 }
+  let xz ← parseZp (← field kvs "xz")
+  let wz ← parseZp (← field kvs "wz")
+  let x ← parseRle (← field kvs "x")
+  let wt ← parseRle (← field kvs "wt")
+  let out := convInteger dw dx padFixed p wz (xz.at 0) x wt
+  return s!"shape={showShape [p.n, p.o, p.outH, p.outW]} {showRle out}"
+
+/-- `scale = 2^e` as a fraction. -/
+def pow2Frac (e : Int) : Int × Int :=
+  if e ≥ 0 then ((2 : Int) ^ e.toNat, 1) else (1, (2 : Int) ^ (-e).toNat)
+
+def handleQl (ws : List String) : Option String := do
+  let kvs ← ws.mapM parseKv
+  let d ← parseDt (← field kvs "dt")
+  let e ← (← field kvs "e").toInt?
+  let zp ← (← field kvs "zp").toInt?
+  let x ← parseRle (← field kvs "x")
+  let (sn, sd) := pow2Frac e
+  return showRle (x.map (quantizeLinear d sn sd zp))
+
+def handleDq (ws : List String) : Option String := do
+  let kvs ← ws.mapM parseKv
+  let zp ← (← field kvs "zp").toInt?
+  let q ← parseRle (← field kvs "q")
+  return showRle (q.map (dequantizeUnits zp))
+
+/-- `r = 255 · 2^j` → `some j`. -/
+def log2Of255Multiple (r : Int) : Option Nat :=
+  if r ≤ 0 || r % 255 != 0 then none
+  else
+    let q := (r / 255).toNat
+    let j := Nat.log2 q
+    if 2 ^ j == q then some j else none
+
+def handleDql (ws : List String) : Option String := do
+  let kvs ← ws.mapM parseKv
+  let e ← (← field kvs "e").toInt?
+  let x ← parseRle (← field kvs "x")
+  let r := dynamicQuantize x
+  if r.range == 0 then
+    return s!"scale_e=zero zp={r.zeroPoint} y={showRle r.y}"
+  match log2Of255Multiple r.range with
+  | none => return "skip"   -- `range / 255` is not a power of two: f32 arithmetic not exact
+  | some j => return s!"scale_e={e + j} zp={r.zeroPoint} y={showRle r.y}"
+
 def handle (line : String) : String :=
   match words line with
   | "g" :: ws => (handleG ws).getD "bad-request"
+  | "mmi" :: ws => (handleMmi ws).getD "bad-request"
+  | "cvi" :: ws => (handleCvi ws).getD "bad-request"
+  | "ql" :: ws => (handleQl ws).getD "bad-request"
+  | "dq" :: ws => (handleDq ws).getD "bad-request"
+  | "dql" :: ws => (handleDql ws).getD "bad-request"
+  | "#" :: _ => "skip"
   | _ => "bad-request"
 
 end RtenVerif.Driver.C17
